@@ -35,6 +35,7 @@ import XotModel.Lemmas.FspecAllUnwrap
 import XotModel.Lemmas.FspecAllNormal
 import XotModel.Lemmas.FspecAllRepl6
 import XotModel.Lemmas.FspecAllFrame2
+import XotModel.Lemmas.FspecStrComposite
 
 namespace XotModel.Props
 open XotModel XotModel.Spec
@@ -1082,6 +1083,55 @@ example :
       (f.replace 3 11).2 = .ok ∧ (f.replace 3 11).1 = specReplaceP 3 11 f ∧
       (f.replace 3 11).1.content = [.node (.element 2) [.node (.text ['w']) [], .node (.text ['x', 'r', 'y']) [],
         .node (.text ['z']) [], .node (.element 6) []]] := by
+  decide
+
+/-! ### String values after the composite calls (every forest with the invariant, no `Forest.Normal`)
+
+  As for the moves (`C05_move_keeps_character_data`): `plainUnwrap n f` / `plainReplace a b f` (Lemmas/FspecStrComposite.lean)
+  are the same edits on the plain ordered-tree model with consolidation off - the wrapper is replaced by its normal
+  children, resp. the replacing subtree is cut and put where the replaced one stood - nothing merged.  After a
+  successful call every non-text node, in particular every ancestor of the touched places, has exactly the string
+  value the unmerged edit gives it, and the non-text nodes are the same, in the same document order (the unwrapped
+  element and the replaced subtree are gone from both lists).  Whatever the two resp. three pair merges
+  (`specUnwrapP`, `specReplaceP`: three-way case included) do to the text NODES, the character DATA is where the
+  edit puts it. -/
+
+/-- ⟦C05_string_value_unwrap⟧ `element_unwrap`: every non-text node has the string value of the unmerged unwrap. -/
+theorem C05_string_value_unwrap {f : Forest} {n : Nat} (inv : f.Inv) (hok : (f.elementUnwrap n).2 = .ok) :
+    (f.elementUnwrap n).1.strValues = (plainUnwrap n f).strValues :=
+  unwrap_keeps_strValues inv hok
+
+/-- ⟦C05_string_value_replace⟧ `replace`, every geometry (replacing node parentless, elsewhere, a sibling, already
+    next to the replaced node; text or not): every non-text node has the string value of the unmerged replace. -/
+theorem C05_string_value_replace {f : Forest} {a b : Nat} (inv : f.Inv) (hok : (f.replace a b).2 = .ok) :
+    (f.replace a b).1.strValues = (plainReplace a b f).strValues :=
+  replace_keeps_strValues inv hok
+
+/-- The pair reading of unwrap itself keeps the character data (no hypothesis on the call). -/
+theorem C05_pair_unwrap_keeps_character_data {f : Forest} (inv : f.Inv) (n : Nat) :
+    (specUnwrapP n f).strValues = (plainUnwrap n f).strValues :=
+  specUnwrapP_strValues inv n
+
+/-- Non-vacuity on a forest WITH adjacent text nodes (the forest of the example above: `<e>w x <u>i j<k/>m</u> y z <v/></e>`
+    and a parentless text `r`): the string value of `e` after `element_unwrap(u)` is `wxijmyz`, after
+    `replace(u, r)` it is `wxryz`, after `replace(v, r)` it is `wxijmyzr` (and `u` keeps `ijm`) - as the unmerged
+    edits give them. -/
+example :
+    let f : Forest := { roots := [.node 0 (.element 2) [.node 1 (.text ['w']) [], .node 2 (.text ['x']) [],
+        .node 3 (.element 3) [.node 4 (.text ['i']) [], .node 5 (.text ['j']) [], .node 6 (.element 6) [],
+          .node 7 (.text ['m']) []],
+        .node 8 (.text ['y']) [], .node 9 (.text ['z']) [], .node 10 (.element 6) []], .node 11 (.text ['r']) []],
+                        next := 12, consolidation := true, everOff := true }
+    f.inv = true ∧ (f.elementUnwrap 3).2 = .ok ∧ (f.replace 3 11).2 = .ok ∧ (f.replace 10 11).2 = .ok ∧
+      (f.elementUnwrap 3).1.strValues = [(0, ['w', 'x', 'i', 'j', 'm', 'y', 'z']), (6, []), (10, [])] ∧
+      (plainUnwrap 3 f).strValues = [(0, ['w', 'x', 'i', 'j', 'm', 'y', 'z']), (6, []), (10, [])] ∧
+      (f.replace 3 11).1.strValues = [(0, ['w', 'x', 'r', 'y', 'z']), (10, [])] ∧
+      (plainReplace 3 11 f).strValues = [(0, ['w', 'x', 'r', 'y', 'z']), (10, [])] ∧
+      (f.replace 10 11).1.strValues =
+        [(0, ['w', 'x', 'i', 'j', 'm', 'y', 'z', 'r']), (3, ['i', 'j', 'm']), (6, [])] ∧
+      (plainReplace 10 11 f).strValues =
+        [(0, ['w', 'x', 'i', 'j', 'm', 'y', 'z', 'r']), (3, ['i', 'j', 'm']), (6, [])] ∧
+      (plainReplace 10 11 f).content ≠ (f.replace 10 11).1.content := by
   decide
 
 /-! ### The frame theorems without `Forest.Normal`
